@@ -47,7 +47,12 @@ func twinOpts(c *Ctx, id string, i int) *HistOpts {
 	for k, v := range evmWeights() {
 		o.Gen.W[k] = v
 	}
-	if o.Gen.NVal > int(o.Params.MaxValidatorCnt) {
+	if id == "C01" && i%4 == 1 {
+		// a genesis with more validators than the limit and equal powers across the cut
+		o.Gen.OverLimitGenesis = true
+		o.Gen.EqualPower = true
+		o.Gen.NVal = int(o.Params.MaxValidatorCnt) + 1 + rng.Intn(3)
+	} else if o.Gen.NVal > int(o.Params.MaxValidatorCnt) {
 		o.Gen.NVal = int(o.Params.MaxValidatorCnt)
 	}
 	return o
